@@ -144,6 +144,14 @@ class Cx:
             return core.to_obj(arr)
         return numpy.array(arr)
 
+    def concrete(self):
+        """context manager: real numpy, for building concrete quantarhei objects"""
+        if self.sym:
+            from symnum import npatch
+            return npatch.unpatched()
+        import contextlib
+        return contextlib.nullcontext()
+
     # ---- assumptions ---------------------------------------------------
     def assume(self, cond, note=None):
         """precondition on the inputs (part of the claim)"""
@@ -308,6 +316,7 @@ def run_instance_sym(h, params, qtimeout, want_smt2=True):
     pending = [[]]
     npaths = 0
     twin_ok = True
+    reduced_twins = 0
     inputs = set()
     status = "ok"
     err = None
@@ -333,7 +342,20 @@ def run_instance_sym(h, params, qtimeout, want_smt2=True):
             all_records += cx.records
             break
         # vacuity twin: assumptions + path condition must be satisfiable
-        r, m, dt, s = solver.check([], timeout_ms=qtimeout, use_coi=False)
+        r, m, dt, s = solver.check([], timeout_ms=min(qtimeout, 10000), use_coi=False)
+        if r == "unknown":
+            # reduced twin: leave out the instantiated true facts about exp/cos/tanh/algebraic
+            # constants (satisfiable by construction); check the harness preconditions, the
+            # path condition and the structural stub contracts (eigh, sqrt, ...)
+            keep = [a for a in ENGINE.assumptions if a.get_id() not in ENGINE.fact_ids]
+            saved = ENGINE.assumptions
+            ENGINE.assumptions = keep
+            try:
+                r, m, dt, s = solver.check([], timeout_ms=qtimeout, use_coi=False)
+            finally:
+                ENGINE.assumptions = saved
+            if r == "sat":
+                reduced_twins += 1
         if r != "sat":
             twin_ok = False
             all_records.append(dict(label="twin", verdict="twin-" + r, path=npaths))
@@ -352,7 +374,7 @@ def run_instance_sym(h, params, qtimeout, want_smt2=True):
         npaths += 1
     return dict(harness=h.name, params=params, status=status, error=err, paths=npaths,
                 records=all_records, notes=notes, assumptions=assumption_notes,
-                samples=samples, twin_ok=twin_ok, wall=round(time.time() - t0, 3),
+                samples=samples, twin_ok=twin_ok, reduced_twins=reduced_twins, wall=round(time.time() - t0, 3),
                 solver_s=round(sum(r.get("secs", 0) for r in all_records), 3),
                 ninputs=len(inputs))
 
